@@ -8,7 +8,9 @@
    furthest-latest entry of S's log of failed attempts. *)
 From Coq Require Import Lia.
 From PegV Require Import Utf8 Utf8Facts State Terminals TerminalsSpec TerminalsOk Syntax Fields
-  FieldsFacts GetFieldsFacts Literals LiteralsFacts Model Spec ErrLog ShapeFacts ExternFacts.
+  FieldsFacts GetFieldsFacts TypesFacts Literals LiteralsFacts Model Spec ErrLog ShapeFacts ExternFacts Arity.
+
+Ltac panic_tac := first [assumption | discriminate | exact I | (intro; discriminate)].
 
 Section Sim.
 Variable ustate : Type.
@@ -48,7 +50,7 @@ Definition corr {A B} (RV : A -> B -> Prop) (far0 : option perr) (cs : list N) (
     exists w m cs' l, sr = SOk w cs' (off st') l /\ cs = m ++ cs' /\ off st' = o + blen m /\
                       rest st' = encode_str cs' /\ far st' = fl far0 l /\ RV v w
   | MErr e => exists l, sr = SFail l /\ Some e = fl far0 l
-  | MPanic _ => True
+  | MPanic p => p <> PanicShape      (* the value plumbing of the templates never breaks *)
   | MFuel => sr = SFuel
   end.
 
@@ -181,10 +183,10 @@ Proof.
       split; [rewrite K5, E5, fl_app; reflexivity|exact K6].
     + destruct K as [l2 [K1 K2]]. rewrite K1. exists (l1 ++ l2). split; [reflexivity|].
       rewrite fl_app, <- E5. exact K2.
-    + exact I.
+    + panic_tac.
     + rewrite K. reflexivity.
   - destruct W as [l1 [E1 E2]]. rewrite E1. exists l1. auto.
-  - exact I.
+  - panic_tac.
   - rewrite W. reflexivity.
 Qed.
 
@@ -200,7 +202,7 @@ Proof.
     replace (filter (fun rf => has_fd (fd_name rf) []) (c_fields ctx)) with (@nil fdesc); [reflexivity|].
     induction (c_fields ctx); cbn; auto.
   - destruct H as [l [E1 E2]]. rewrite E1. exists l. auto.
-  - exact I.
+  - panic_tac.
   - rewrite H. reflexivity.
 Qed.
 
@@ -235,10 +237,10 @@ Lemma expr_lit_ok ctx ins body st gl cs :
        (sexpr_step g (insens_guard rcfg) sv (c_skip ctx) (ELit ins body) cs (off st)).
 Proof.
   intros Hr Hs. cbn [expr_step sexpr_step]. rewrite Hguard.
-  destruct (compile_lit true ins body) as [m| | |] eqn:C; cbn [fst corr]; auto.
+  destruct (compile_lit true ins body) as [m| | |] eqn:C; cbn [fst corr]; try panic_tac.
   pose proof (compile_lit_ok _ _ _ C) as Hm.
   destruct (lit_term m) as [t sp] eqn:LT.
-  apply no_fields_ok; [apply gfF_leaf; exact I|].
+  apply no_fields_ok; [apply gfF_leaf; panic_tac|].
   apply with_ws_ok; auto. intros st1 gl1 cs1 H1 H2.
   pose proof (run_lit_ok m st1 gl1 cs1 Hm H1 H2) as K. rewrite LT in K. exact K.
 Qed.
@@ -250,9 +252,9 @@ Lemma expr_range_ok ctx a b st gl cs :
        (sexpr_step g (insens_guard rcfg) sv (c_skip ctx) (ERange a b) cs (off st)).
 Proof.
   intros Hr Hs. cbn [expr_step sexpr_step].
-  destruct (compile_range a b) as [x y| |] eqn:C; cbn [fst corr]; auto.
+  destruct (compile_range a b) as [x y| |] eqn:C; cbn [fst corr]; try panic_tac.
   destruct (compile_range_ok _ _ _ _ C) as [Hx Hy].
-  apply no_fields_ok; [apply gfF_leaf; exact I|].
+  apply no_fields_ok; [apply gfF_leaf; panic_tac|].
   apply with_ws_ok; auto. intros st1 gl1 cs1 H1 H2.
   eapply lift_term_ok; [apply parse_character_range_ok; auto|auto].
 Qed.
@@ -264,7 +266,7 @@ Lemma expr_eoi_ok ctx st gl cs :
        (sexpr_step g (insens_guard rcfg) sv (c_skip ctx) EEoi cs (off st)).
 Proof.
   intros Hr Hs. cbn [expr_step sexpr_step].
-  apply no_fields_ok; [apply gfF_leaf; exact I|].
+  apply no_fields_ok; [apply gfF_leaf; panic_tac|].
   apply with_ws_ok; auto. intros st1 gl1 cs1 H1 H2.
   eapply lift_term_ok; [apply parse_end_of_input_ok; auto|auto].
 Qed.
@@ -293,12 +295,13 @@ Lemma filter_none rf own : (forall x, has_fd x own = false) -> filter (fun r => 
 Proof. intro H. induction rf as [|x rf IH]; cbn; [reflexivity|]. rewrite H. exact IH. Qed.
 
 Lemma expr_field_ok ctx fn boxed typ st gl cs :
+  dom fcfg g F (c_fields ctx) (EField fn boxed typ) ->
   wf_rf (c_fields ctx) -> rest st = encode_str cs -> all_scalar cs ->
   corr (RVe ctx (EField fn boxed typ)) (far st) cs (off st)
        (fst (expr_step ustate scfg tcfg fcfg rcfg g ev ctx (EField fn boxed typ) st gl))
        (sexpr_step g (insens_guard rcfg) sv (c_skip ctx) (EField fn boxed typ) cs (off st)).
 Proof.
-  intros Hwf Hr Hs. cbn [expr_step sexpr_step].
+  intros Hd Hwf Hr Hs. cbn [expr_step sexpr_step].
   pose proof (with_ws_ok eq ctx st gl cs (fun st gl => ev_rule ev typ st gl)
                          (fun cs o => sv_rule sv typ cs o) Hr Hs
                          (fun st1 gl1 cs1 H1 H2 => IHr typ st1 gl1 cs1 H1 H2)) as W.
@@ -307,7 +310,11 @@ Proof.
   - destruct W as [w [m [cs' [l [E1 [E2 [E3 [E4 [E5 E6]]]]]]]]]. subst w. rewrite E1.
     destruct gf_fuel_pos as [F' HF].
     destruct (fname_of fn) as [n|] eqn:FN.
-    + destruct (postprocess (c_fields ctx) n typ v) as [fs|] eqn:PP; cbn [fst corr]; [|exact I].
+    + destruct (postprocess (c_fields ctx) n typ v) as [fs|] eqn:PP; cbn [fst corr].
+      2:{ exfalso. unfold postprocess in PP. destruct (find_fd n (c_fields ctx)) as [fd|] eqn:Ffd; [discriminate|].
+          destruct Hd as [l0 [G0 S0]]. rewrite HF in G0. cbn in G0. rewrite FN in G0. injection G0 as <-.
+          destruct (S0 n One) as [a' [Ha' _]]; [unfold arity_of; cbn; rewrite name_eqb_refl; reflexivity|].
+          unfold arity_of in Ha'. rewrite Ffd in Ha'. discriminate. }
       exists [ {| ev_field := n; ev_typ := typ; ev_val := v |} ], m, cs', l.
       repeat split; auto.
       unfold postprocess in PP. destruct (find_fd n (c_fields ctx)) as [fd|] eqn:Ffd; [|discriminate].
@@ -328,7 +335,7 @@ Proof.
       split; [rewrite filter_none by reflexivity; reflexivity|constructor].
   - destruct W as [l [E1 E2]]. rewrite E1.
     destruct (fname_of fn); cbn [no_fields fst corr]; exists l; auto.
-  - destruct (fname_of fn); cbn [no_fields fst corr]; exact I.
+  - destruct (fname_of fn); cbn [no_fields fst corr]; panic_tac.
   - rewrite W. destruct (fname_of fn); cbn [no_fields fst corr]; reflexivity.
 Qed.
 
@@ -371,7 +378,7 @@ Lemma expr_include_ok ctx n st gl cs :
        (sexpr_step g (insens_guard rcfg) sv (c_skip ctx) (EInclude n) cs (off st)).
 Proof.
   intros Hd Hwf Hr Hs. cbn [expr_step sexpr_step].
-  destruct (find_rule g n) as [r|] eqn:FR; [|exact I].
+  destruct (find_rule g n) as [r|] eqn:FR; [|panic_tac].
   pose proof (dom_include _ _ _ _ _ _ Hd FR) as Hdb.
   destruct Hd as [l [G _]]. destruct Hdb as [l' [G' S']].
   assert (l' = l) as ->.
@@ -382,6 +389,14 @@ Proof.
 Qed.
 
 (* ---- optional ------------------------------------------------------------- *)
+Lemma defaults_some fds : (forall fd, In fd fds -> fd_arity fd <> One) -> defaults fds <> None.
+Proof.
+  induction fds as [|fd r IH]; intro H; [discriminate|]. cbn.
+  assert (H1 : fd_arity fd <> One) by (apply H; left; reflexivity).
+  assert (H2 : defaults r <> None) by (apply IH; intros; apply H; right; assumption).
+  destruct (fd_arity fd); cbn; try congruence; destruct (defaults r); congruence || discriminate.
+Qed.
+
 Lemma expr_optional_ok ctx b st gl cs :
   dom fcfg g F (c_fields ctx) (EOptional b) -> wf_rf (c_fields ctx) ->
   rest st = encode_str cs -> all_scalar cs ->
@@ -390,7 +405,7 @@ Lemma expr_optional_ok ctx b st gl cs :
        (sexpr_step g (insens_guard rcfg) sv (c_skip ctx) (EOptional b) cs (off st)).
 Proof.
   intros Hd Hwf Hr Hs. cbn [expr_step sexpr_step].
-  destruct (dom_optional _ Hf g _ _ _ Hd) as [lb [Gb [Sb _]]].
+  destruct (dom_optional _ Hf g _ _ _ Hd) as [lb [Gb [Sb Hopt]]].
   destruct Hd as [l [G _]].
   assert (HN : names_eq lb l).
   { destruct gf_fuel_pos as [F' HF]. rewrite HF in G, Gb. cbn in G.
@@ -404,14 +419,18 @@ Proof.
     exists w, m, cs', lg. repeat split; auto. eapply RVe_names; eauto.
   - destruct B as [lg [E1 E2]]. rewrite E1.
     unfold filt, filtered_fields. rewrite Gb.
-    destruct (defaults _) as [d|] eqn:D; cbn [fst corr]; [|exact I].
+    destruct (defaults _) as [d|] eqn:D; cbn [fst corr].
+    2:{ exfalso. revert D. apply defaults_some. intros fd Hin. apply filter_In in Hin. destruct Hin as [Hrf Hlb].
+        apply has_fd_arity in Hlb. destruct Hlb as [a Ha]. destruct (Hopt _ _ Ha) as [a' [Ha' Ga']].
+        unfold arity_of in Ha'. rewrite (find_fd_unique _ _ Hwf Hrf) in Ha'. injection Ha' as <-.
+        intro E1'. rewrite E1' in Ga'. discriminate. }
     exists [], [], cs, lg. split; [rewrite record_error_off; reflexivity|].
     split; [reflexivity|]. split; [rewrite record_error_off; cbn; lia|].
     split; [rewrite record_error_rest; exact Hr|].
     split; [apply record_error_fl; auto|].
     exists l. split; [exact G|]. split; [|constructor].
     rewrite defaults_shape in D. rewrite <- D. f_equal. apply filter_ext. intro a. symmetry. apply HN.
-  - exact I.
+  - panic_tac.
   - rewrite B. reflexivity.
 Qed.
 
@@ -441,7 +460,7 @@ Proof.
     eexists. split; [reflexivity|]. apply report_error_fl. exact Hle.
   - destruct B as [lg [E1 _]]. rewrite E1. cbn [corr].
     exists [], [], cs, []. repeat split; auto. apply RVe_nil; exact G.
-  - exact I.
+  - panic_tac.
   - rewrite B. reflexivity.
 Qed.
 
@@ -463,7 +482,7 @@ Proof.
   - destruct B as [w [m [cs' [lg [E1 _]]]]]. rewrite E1. cbn [corr].
     exists [], [], cs, []. repeat split; auto. apply RVe_nil; exact G.
   - destruct B as [lg [E1 E2]]. rewrite E1. exists lg. auto.
-  - exact I.
+  - panic_tac.
   - rewrite B. reflexivity.
 Qed.
 
@@ -473,6 +492,26 @@ Lemma has_sub n a b x : sub a b -> arity_of n a = Some x -> has_fd n b = true.
 Proof.
   intros S H. destruct (S n x H) as [y [Hy _]]. apply has_fd_arity. eauto.
 Qed.
+
+Lemma shape_fields_some fds evs fs fd :
+  shape_fields fds evs = Some fs -> In fd fds -> exists v, field_value fd evs = Some v.
+Proof.
+  revert fs. induction fds as [|x fds IH]; intros fs H Hin; [destruct Hin|].
+  cbn in H. destruct (field_value x evs) as [v|] eqn:V; [|discriminate].
+  destruct (shape_fields fds evs) as [r|]; [|discriminate].
+  destruct Hin as [->|Hin]; [eauto|]. eapply IH; eauto.
+Qed.
+
+Lemma shape_all_some fds evs : (forall fd, In fd fds -> field_value fd evs <> None) -> shape_fields fds evs <> None.
+Proof.
+  induction fds as [|fd r IH]; intro H; [discriminate|]. cbn.
+  assert (H1 : field_value fd evs <> None) by (apply H; left; reflexivity).
+  assert (H2 : shape_fields r evs <> None) by (apply IH; intros; apply H; right; assumption).
+  destruct (field_value fd evs); [|congruence]. destruct (shape_fields r evs); [discriminate|congruence].
+Qed.
+
+Lemma ge_optional_not_one a : ge_arity a Optional = true -> a <> One.
+Proof. destruct a; cbn; intros H E; discriminate. Qed.
 
 Lemma choice_loop_ok ctx all_alts own fds :
   dom fcfg g F (c_fields ctx) (EChoice all_alts) -> wf_rf (c_fields ctx) ->
@@ -487,7 +526,7 @@ Lemma choice_loop_ok ctx all_alts own fds :
          (s_choice sv (c_skip ctx) alts cs (off cst) accl).
 Proof.
   intros Hd Hwf Gown Hfds.
-  destruct (dom_choice _ Hf g _ _ _ Hd) as [l [G [Sl [Hparts [_ Hnames]]]]].
+  destruct (dom_choice _ Hf g _ _ _ Hd) as [l [G [Sl [Hparts [Hmiss Hnames]]]]].
   rewrite Gown in G. injection G as <-.
   induction alts as [|a alts IH]; intros cst gl cs accl far0 Hin Hr Hs Hfar Hne.
   - cbn. exists accl. split; [reflexivity|].
@@ -500,23 +539,37 @@ Proof.
     destruct (ev_expr ev ctx a cst gl) as [[fs st'|e|p|] gl']; cbn [fst] in *.
     + destruct B as [evs [m [cs' [lg [E1 [E2 [E3 [E4 [E5 E6]]]]]]]]]. rewrite E1.
       unfold own_fields. rewrite Ga.
-      destruct (convert_arm fds la fs) as [out|] eqn:CA; cbn [fst corr]; [|exact I].
-      exists evs, m, cs', (accl ++ lg). repeat split; auto.
-      { rewrite fl_app, <- Hfar. exact E5. }
       destruct E6 as [own_a [Goa [Hsh Hev]]]. rewrite Ga in Goa. injection Goa as <-.
-      exists own. split; [exact Gown|]. split.
-      * rewrite <- Hfds. rewrite <- CA. symmetry. apply convert_arm_shape.
+      assert (Hmine : forall fd, has_fd (fd_name fd) la = false -> mine (fd_name fd) evs = []).
+      { intros fd HL. apply mine_none. eapply Forall_impl; [|exact Hev]. intros ev0 H0. cbn in H0.
+        destruct (name_eqb (ev_field ev0) (fd_name fd)) eqn:E; [|reflexivity].
+        apply name_eqb_eq in E. rewrite E in H0. congruence. }
+      assert (CE : convert_arm fds la fs = shape_fields fds evs).
+      { apply convert_arm_shape.
         intros fd Hfd. rewrite Hfds in Hfd. apply filter_In in Hfd. destruct Hfd as [Hfd_in Hfd_own].
         pose proof (find_fd_unique _ _ Hwf Hfd_in) as FU.
         destruct (has_fd (fd_name fd) la) eqn:HL.
         -- erewrite lookup_shape; [reflexivity|exact Hsh|].
            apply find_fd_filter_has; auto.
-        -- rewrite field_value_mine.
-           assert (mine (fd_name fd) evs = []) as ->.
-           { apply mine_none. eapply Forall_impl; [|exact Hev]. intros ev0 H0. cbn in H0.
-             destruct (name_eqb (ev_field ev0) (fd_name fd)) eqn:E; [|reflexivity].
-             apply name_eqb_eq in E. rewrite E in H0. congruence. }
-           destruct (fd_arity fd); reflexivity.
+        -- rewrite field_value_mine, (Hmine fd HL).
+           destruct (fd_arity fd); reflexivity. }
+      destruct (convert_arm fds la fs) as [out|] eqn:CA; cbn [fst corr].
+      2:{ exfalso. symmetry in CE. revert CE. apply shape_all_some.
+          intros fd Hfd. rewrite Hfds in Hfd. apply filter_In in Hfd. destruct Hfd as [Hfd_in Hfd_own].
+          pose proof (find_fd_unique _ _ Hwf Hfd_in) as FU.
+          destruct (has_fd (fd_name fd) la) eqn:HL.
+          - destruct (shape_fields_some _ _ _ fd Hsh) as [v0 Hv0]; [apply filter_In; split; assumption|]. congruence.
+          - rewrite field_value_mine, (Hmine fd HL).
+            apply has_fd_arity in Hfd_own. destruct Hfd_own as [ao Hao].
+            assert (Hn : arity_of (fd_name fd) la = None) by (apply has_fd_false; exact HL).
+            pose proof (Hmiss a la (fd_name fd) ao (Hin a (or_introl eq_refl)) Ga Hn Hao) as Go.
+            destruct (Sl _ _ Hao) as [ar [Har Gr]]. unfold arity_of in Har. rewrite FU in Har. injection Har as <-.
+            assert (N1 : fd_arity fd <> One) by (apply ge_optional_not_one; eapply ge_arity_trans; eauto).
+            destruct (fd_arity fd); [congruence|discriminate|discriminate]. }
+      exists evs, m, cs', (accl ++ lg). repeat split; auto.
+      { rewrite fl_app, <- Hfar. exact E5. }
+      exists own. split; [exact Gown|]. split.
+      * rewrite <- Hfds. symmetry. exact CE.
       * eapply Forall_impl; [|exact Hev]. intros ev0 H0. cbn in H0.
         apply has_fd_arity in H0. destruct H0 as [x Hx]. eapply has_sub; eauto.
     + destruct B as [lg [E1 E2]]. rewrite E1.
@@ -527,7 +580,7 @@ Proof.
       * exact Hs.
       * rewrite fl_app, <- Hfar. apply record_error_fl; auto.
       * intros _. rewrite fl_app, <- Hfar, <- E2. discriminate.
-    + exact I.
+    + panic_tac.
     + rewrite B. reflexivity.
 Qed.
 
@@ -558,14 +611,6 @@ Definition seq_inv (rf seen : list fdesc) (acc : fields) (evs : list event) : Pr
      exists fd, find_fd n rf = Some fd /\ lookup n acc = field_value fd evs /\ lookup n acc <> None) /\
   (forall n, has_fd n seen = false -> lookup n acc = None /\ no_events n evs).
 
-Lemma shape_fields_some fds evs fs fd :
-  shape_fields fds evs = Some fs -> In fd fds -> exists v, field_value fd evs = Some v.
-Proof.
-  revert fs. induction fds as [|x fds IH]; intros fs H Hin; [destruct Hin|].
-  cbn in H. destruct (field_value x evs) as [v|] eqn:V; [|discriminate].
-  destruct (shape_fields fds evs) as [r|]; [|discriminate].
-  destruct Hin as [->|Hin]; [eauto|]. eapply IH; eauto.
-Qed.
 
 Lemma no_events_of_own n own evs :
   Forall (fun ev => has_fd (ev_field ev) own = true) evs -> has_fd n own = false -> no_events n evs.
@@ -573,6 +618,44 @@ Proof.
   intros H Hn. eapply Forall_impl; [|exact H]. intros ev0 H0. cbn in H0.
   destruct (name_eqb (ev_field ev0) n) eqn:E; [|reflexivity].
   apply name_eqb_eq in E. rewrite E in H0. congruence.
+Qed.
+
+Lemma seq_merge_vals_some new : forall acc,
+  NoDup (map fst new) ->
+  (forall n v, In (n, v) new ->
+     match lookup n acc with
+     | None => True
+     | Some (VList _) => exists b, v = VList b
+     | Some _ => False
+     end) ->
+  seq_merge_vals acc new <> None.
+Proof.
+  induction new as [|[n v] new IH]; intros acc ND H; [discriminate|]. cbn [seq_merge_vals].
+  cbn in ND. inversion ND as [|? ? Hn ND']; subst.
+  pose proof (H n v (or_introl eq_refl)) as H0.
+  assert (Hother : forall acc', (forall k, k <> n -> lookup k acc' = lookup k acc) ->
+            forall k w, In (k, w) new ->
+              match lookup k acc' with None => True | Some (VList _) => exists b, w = VList b | Some _ => False end).
+  { intros acc' Hk k w Hin. rewrite Hk; [apply H; right; exact Hin|].
+    intro E. subst k. apply Hn. change n with (fst (n, w)). apply in_map. exact Hin. }
+  destruct (lookup n acc) as [x|] eqn:L.
+  - destruct x; try contradiction. destruct H0 as [b ->].
+    apply IH; [exact ND'|]. apply Hother. intros k Hk. apply lookup_update_other. congruence.
+  - apply IH; [exact ND'|]. apply Hother. intros k Hk. rewrite lookup_app.
+    destruct (lookup k acc); [reflexivity|]. cbn. destruct (name_eqb k n) eqn:E; [|reflexivity].
+    apply name_eqb_eq in E. congruence.
+Qed.
+
+Lemma shape_fields_in fds evs fs n v :
+  shape_fields fds evs = Some fs -> In (n, v) fs -> exists fd, In fd fds /\ fd_name fd = n /\ field_value fd evs = Some v.
+Proof.
+  revert fs. induction fds as [|fd fds IH]; intros fs H Hin; cbn in H.
+  - injection H as <-. destruct Hin.
+  - destruct (field_value fd evs) as [w|] eqn:V; [|discriminate].
+    destruct (shape_fields fds evs) as [r|] eqn:R; [|discriminate]. injection H as <-.
+    destruct Hin as [E|Hin].
+    + injection E as <- <-. exists fd. split; [left; reflexivity|]. split; [reflexivity|exact V].
+    + destruct (IH r eq_refl Hin) as [fd' [A [B C]]]. exists fd'. split; [right; exact A|]. split; assumption.
 Qed.
 
 Lemma seq_loop_ok ctx all_parts own fds :
@@ -593,17 +676,22 @@ Proof.
   rewrite Gown in G. injection G as <-.
   induction parts as [|p ps IH]; intros done st acc gl cs evs accl far0 Hall Hinv Hevs Hr Hs Hfar.
   - cbn [seq_loop s_seq]. rewrite app_nil_r in Hall. subst done.
-    destruct (order_as fds acc) as [out|] eqn:OA; cbn [fst corr]; [|exact I].
+    assert (Hfdv : forall fd, In fd fds -> lookup (fd_name fd) acc = field_value fd evs /\ lookup (fd_name fd) acc <> None).
+    { intros fd Hfd. rewrite Hfds in Hfd. apply filter_In in Hfd. destruct Hfd as [Hfd_in Hfd_own].
+      destruct (Hnames _ Hfd_own) as [p [lp [Hp [Gp Hlp]]]].
+      destruct Hinv as [Hseen _].
+      destruct (Hseen (fd_name fd)) as [fd' [F1 [F2 F3]]].
+      { eapply has_fd_flat_map_in; eauto. unfold ownl. rewrite Gp. exact Hlp. }
+      rewrite (find_fd_unique _ _ Hwf Hfd_in) in F1. injection F1 as <-. split; [exact F2|exact F3]. }
+    assert (OE : order_as fds acc = shape_fields fds evs).
+    { apply order_as_shape. intros fd Hfd. apply (Hfdv fd Hfd). }
+    destruct (order_as fds acc) as [out|] eqn:OA; cbn [fst corr].
+    2:{ exfalso. symmetry in OE. revert OE. apply shape_all_some. intros fd Hfd.
+        destruct (Hfdv fd Hfd) as [A B]. rewrite <- A. exact B. }
     exists evs, [], cs, accl. split; [reflexivity|]. split; [reflexivity|].
     split; [cbn; lia|]. split; [exact Hr|]. split; [exact Hfar|].
     exists own. split; [exact Gown|]. split; [|exact Hevs].
-    rewrite <- Hfds, <- OA. symmetry. apply order_as_shape.
-    intros fd Hfd. rewrite Hfds in Hfd. apply filter_In in Hfd. destruct Hfd as [Hfd_in Hfd_own].
-    destruct (Hnames _ Hfd_own) as [p [lp [Hp [Gp Hlp]]]].
-    destruct Hinv as [Hseen _].
-    destruct (Hseen (fd_name fd)) as [fd' [F1 [F2 _]]].
-    { eapply has_fd_flat_map_in; eauto. unfold ownl. rewrite Gp. exact Hlp. }
-    rewrite (find_fd_unique _ _ Hwf Hfd_in) in F1. injection F1 as <-. exact F2.
+    rewrite <- Hfds. symmetry. exact OE.
   - cbn [seq_loop s_seq].
     assert (Hp_in : In p all_parts) by (rewrite Hall; apply in_or_app; right; left; reflexivity).
     destruct (Hparts p Hp_in) as [lp [Gp Sp]].
@@ -612,10 +700,35 @@ Proof.
     destruct (ev_expr ev ctx p st gl) as [[fs st'|e|pp|] gl']; cbn [fst] in *.
     + destruct B as [e1 [m [cs' [lg [E1 [E2 [E3 [E4 [E5 E6]]]]]]]]]. rewrite E1.
       destruct E6 as [own_p [Gop [Hsh Hev1]]]. rewrite Gp in Gop. injection Gop as <-.
-      destruct (seq_merge_vals acc fs) as [acc'|] eqn:SM; cbn [fst corr]; [|exact I].
-      assert (Hs' : all_scalar cs') by (rewrite E2 in Hs; eapply all_scalar_suffix; eauto).
       assert (ND : NoDup (map fst fs)).
       { rewrite (shape_fields_names _ _ _ Hsh). apply wf_rf_filter. exact Hwf. }
+      (* a field of this part that an earlier part produced is Multiple at rule level *)
+      assert (HMult : forall n fd, has_fd n lp = true -> has_fd n (flat_map ownl done) = true ->
+                        find_fd n (c_fields ctx) = Some fd -> fd_arity fd = Multiple).
+      { intros n fd Hlp Hsn Ffd.
+        apply has_fd_arity in Hlp. destruct Hlp as [ap Hap].
+        destruct (has_fd_flat_map _ _ Hsn) as [p0 [Hp0 Hp0n]].
+        unfold ownl in Hp0n. destruct (gfF p0) as [lp0| |] eqn:Gp0; try discriminate.
+        apply has_fd_arity in Hp0n. destruct Hp0n as [a0 Ha0].
+        apply in_split in Hp0. destruct Hp0 as [l1 [l2 Hdone]].
+        assert (HM : arity_of n own = Some Multiple).
+        { eapply (Hdup l1 p0 l2 p ps lp0 lp n a0 ap); eauto.
+          rewrite Hall, Hdone, <- app_assoc. reflexivity. }
+        destruct (Sl _ _ HM) as [ar [Har Gar]]. apply ge_multiple in Gar. subst ar.
+        unfold arity_of in Har. rewrite Ffd in Har. injection Har as HfdM. exact HfdM. }
+      destruct (seq_merge_vals acc fs) as [acc'|] eqn:SM; cbn [fst corr].
+      2:{ exfalso. revert SM. apply seq_merge_vals_some; [exact ND|].
+          intros n v Hin. destruct (shape_fields_in _ _ _ n v Hsh Hin) as [fd [Hfd [Hn Hv]]].
+          apply filter_In in Hfd. destruct Hfd as [Hfd_in Hfd_lp]. subst n.
+          pose proof (find_fd_unique _ _ Hwf Hfd_in) as FU.
+          destruct Hinv as [Hseen Hunseen].
+          destruct (has_fd (fd_name fd) (flat_map ownl done)) eqn:Hsn.
+          - destruct (Hseen _ Hsn) as [fd2 [F1 [F2 F3]]]. rewrite FU in F1. injection F1 as <-.
+            pose proof (HMult _ fd Hfd_lp Hsn FU) as HfdM.
+            rewrite F2, (field_value_multiple fd evs HfdM).
+            rewrite (field_value_multiple fd e1 HfdM) in Hv. injection Hv as <-. eexists. reflexivity.
+          - destruct (Hunseen _ Hsn) as [U1 _]. rewrite U1. exact I. }
+      assert (Hs' : all_scalar cs') by (rewrite E2 in Hs; eapply all_scalar_suffix; eauto).
       pose proof (seq_merge_vals_lookup fs acc acc' ND SM) as LK.
       assert (Hinv' : seq_inv (c_fields ctx) (flat_map ownl (done ++ [p])) acc' (evs ++ e1)).
       { rewrite flat_map_app. cbn [flat_map]. rewrite app_nil_r. unfold ownl at 2. rewrite Gp.
@@ -674,11 +787,11 @@ Proof.
         split; [rewrite E2, R2, app_assoc; reflexivity|].
         split; [rewrite R3, E3, blen_app; lia|]. auto.
       * exact R.
-      * exact I.
+      * panic_tac.
       * exact R.
     + destruct B as [lg [E1 E2]]. rewrite E1. exists (accl ++ lg). split; [reflexivity|].
       rewrite fl_app, <- Hfar. exact E2.
-    + exact I.
+    + panic_tac.
     + rewrite B. reflexivity.
 Qed.
 
@@ -778,7 +891,7 @@ Proof.
       split; [reflexivity|]. split; [rewrite record_error_off; cbn; lia|].
       split; [rewrite record_error_rest; exact Hr|]. split; [exact Hfar2|].
       split; [reflexivity|exact Hevs].
-  - exact I.
+  - panic_tac.
   - rewrite B. reflexivity.
 Qed.
 
@@ -801,7 +914,7 @@ Proof.
   intros Hd Hwf Hr Hs. destruct e.
   - (* choice *)
     destruct alts as [|a [|a2 rest]].
-    + cbn. exact I.
+    + cbn. panic_tac.
     + cbn [expr_step sexpr_step].
       destruct (dom_choice _ Hf g _ _ _ Hd) as [l [G [Sl [Hparts [_ Hnames]]]]].
       destruct (Hparts a (or_introl eq_refl)) as [la [Ga Sa]].
@@ -906,7 +1019,7 @@ Lemma rule_body_ok r st gl cs :
         end).
 Proof.
   intros Hr Hs. unfold rule_body.
-  destruct (get_fields fcfg (gf_fuel g) g (r_def r)) as [rf| |] eqn:G; cbn [fst corr]; auto.
+  destruct (get_fields fcfg (gf_fuel g) g (r_def r)) as [rf| |] eqn:G; cbn [fst corr]; try panic_tac.
   set (ctx := {| c_skip := negb (fl_no_skip_ws (flags_of (r_directives r))); c_fields := rf |}).
   assert (Hd : dom fcfg g F (c_fields ctx) (r_def r)) by (exists rf; split; [exact G|apply sub_refl]).
   assert (Hwf : wf_rf (c_fields ctx)) by (eapply gf_nodup; eauto).
@@ -926,7 +1039,13 @@ Proof.
       destruct (name_eqb (fd_name fd) n_override) eqn:EO; [|rewrite Hsh; reflexivity].
       cbn [shape_fields] in Hsh. destruct (field_value fd evs) as [v|]; [|discriminate]. injection Hsh as <-.
       cbn [lookup]. rewrite name_eqb_sym, EO. reflexivity. }
-    rewrite <- EQ. clearbody OV. destruct OV as [v|]; cbn [fst corr]; [|exact I].
+    assert (ON : OV <> None).
+    { unfold OV. destruct (fl_string (flags_of (r_directives r))); [discriminate|].
+      destruct rf as [|fd [|fd2 rf']]; try discriminate.
+      destruct (name_eqb (fd_name fd) n_override) eqn:EO; [|discriminate].
+      cbn [shape_fields] in Hsh. destruct (field_value fd evs) as [v|]; [|discriminate]. injection Hsh as <-.
+      cbn [lookup]. rewrite name_eqb_sym, EO. discriminate. }
+    rewrite <- EQ. clearbody OV. destruct OV as [v|]; cbn [fst corr]; [|congruence].
     pose proof (run_checks_ok (checks_of (r_directives r)) v st' gl') as C.
     destruct (run_checks ustate scfg hk (checks_of (r_directives r)) v st' gl') as [[v2 st2|e2|p2|] gl2];
       cbn [fst] in *.
@@ -936,7 +1055,7 @@ Proof.
     + destruct C.
     + destruct C.
   - destruct B as [lg [E1 E2]]. rewrite E1. exists lg. auto.
-  - exact I.
+  - panic_tac.
   - rewrite B. reflexivity.
 Qed.
 
@@ -953,13 +1072,13 @@ Proof.
   intros Hr Hs. induction ps as [|pt ps IH]; intro gl.
   - cbn. eexists. split; [reflexivity|]. apply report_error_fl. exact Hle.
   - destruct pt as [i|a b|n]; cbn [char_parts s_char_parts].
-    + destruct (decode_item i) as [c| |] eqn:D; cbn [fst corr]; auto.
+    + destruct (decode_item i) as [c| |] eqn:D; cbn [fst corr]; try panic_tac.
       pose proof (parse_character_literal_ok scfg st cs c Hr Hs (decode_item_scalar _ _ D)) as T.
       unfold term_ok in T. fold tcfg in T. destruct (term_match (TmChar c) cs) as [m|] eqn:TM.
       * rewrite T. cbn [fst corr]. exists (VChar c), m, (skipn (length m) cs), [].
         split; [reflexivity|]. split; [apply term_match_prefix in TM; exact TM|]. repeat split; auto.
       * rewrite T. apply IH.
-    + destruct (compile_range a b) as [x y| |] eqn:C; cbn [fst corr]; auto.
+    + destruct (compile_range a b) as [x y| |] eqn:C; cbn [fst corr]; try panic_tac.
       destruct (compile_range_ok _ _ _ _ C) as [Hx Hy].
       pose proof (parse_character_range_ok scfg st cs x y Hr Hs Hx Hy) as T.
       unfold term_ok in T. fold tcfg in T. destruct (term_match (TmRange x y) cs) as [m|] eqn:TM.
@@ -971,7 +1090,7 @@ Proof.
       * destruct B as [w [m [cs' [l [E1 [E2 [E3 [E4 [E5 E6]]]]]]]]]. rewrite E1.
         exists w, m, cs', l. repeat split; auto.
       * destruct B as [l [E1 _]]. rewrite E1. apply IH.
-      * exact I.
+      * panic_tac.
       * rewrite B. reflexivity.
 Qed.
 
@@ -1021,7 +1140,7 @@ Proof.
   pose proof (Hpure_ext (er_function r) (encode_str cs) (g_user gl)) as P.
   destruct (h_extern hk (er_function r) (encode_str cs) (g_user gl)) as [res u]. cbn in P. subst res.
   destruct (sh_extern shk (er_function r) (encode_str cs)) as [[v n]|msg].
-  - unfold advance_safe. destruct (advance st n) as [st'| |] eqn:A; cbn [fst corr]; auto.
+  - unfold advance_safe. destruct (advance st n) as [st'| |] eqn:A; cbn [fst corr]; try panic_tac.
     destruct (advance_split st cs n st' Hr Hs A) as [m [cs' [H1 [H2 [H3 [H4 [H5 H6]]]]]]].
     rewrite H1. exists v, m, cs', []. split; [rewrite H5; reflexivity|]. split; [exact H2|].
     split; [rewrite H5, H3; reflexivity|]. repeat split; auto.
@@ -1054,7 +1173,7 @@ Proof.
   - apply extern_rule_ok; auto.
   - destruct (name_eqb n n_char).
     + eapply lift_term_ok; [apply parse_char_ok; auto|reflexivity].
-    + destruct (name_eqb n n_Whitespace); [|exact I].
+    + destruct (name_eqb n n_Whitespace); [|panic_tac].
       eapply lift_term_ok; [apply parse_Whitespace_ok; auto|reflexivity].
 Qed.
 
